@@ -27,7 +27,7 @@ else
 endif
 
 LIB_SRC   := $(wildcard $(REPO)/src/*.cxx)
-SIM_SRC   := sim/plan.cxx sim/driver.cxx
+SIM_SRC   := sim/plan.cxx sim/driver.cxx sim/statics.cxx
 HEAP_SRC  := sim/heap.cxx
 DEP_SRC   := $(wildcard props/*.cxx) $(wildcard model/*.cxx)
 
